@@ -65,6 +65,9 @@ def build_initial(w, driver):
     w.init_layout()
     w.set_pending([])
     for ev in driver.init_events():
+        if driver.config.get('clock'):
+            from .world import set_clock
+            set_clock(60 * (w.tick + 1))
         E.apply(w, ev)
         w.tick += 1
 
@@ -74,6 +77,9 @@ def step(w, driver, ev, pre=None):
     if pre is None:
         pre = w.state()
     t0 = time.time()
+    if driver.config.get('clock'):
+        from .world import set_clock
+        set_clock(60 * (w.tick + 1))
     obs = E.apply(w, ev)
     w.tick += 1
     post = w.state()
